@@ -131,8 +131,10 @@ struct HExec : public GraphExecutor {
   std::deque<Task> q;
   bool inplace = true;
   uint64_t rng = 1;
+  int nrun = 0;
   Closure create_closure() noexcept override { return Closure::create<::babylon::SchedInterface>(*this); }
   int32_t run(GraphVertex* v, GraphVertexClosure&& c) noexcept override {
+    nrun++;
     if (inplace) { v->run(std::move(c)); return 0; }
     q.push_back(Task {v, std::move(c)});
     return 0;
@@ -157,7 +159,9 @@ int main() {
     const std::string id = w[0];
     unsigned long long seed = strtoull(w[1].c_str(), nullptr, 10);
     int strategy = atoi(w[2].c_str());
-    bool inplace = w[3][0] == 'I';
+    bool unit = w[3][0] == 'U';   // unit mode: thread 0 calls GraphVertex::activate of vertex 0 directly, the injectors
+                                  // release its condition / target concurrently (needs -fno-access-control)
+    bool inplace = w[3][0] == 'I' || unit;
     int workers = inplace ? 0 : atoi(w[3].c_str() + 1);
     int cycles = atoi(w[4].c_str());
     bool inflight = w[3].find('x') != std::string::npos;
@@ -251,6 +255,20 @@ int main() {
       std::vector<int> injvalid; size_t inj_done = 0;
       for (auto& th : injectors) for (size_t k = 0; k < th.size(); ++k) injvalid.push_back(-1);
       std::vector<std::function<void()>> bodies;
+      Closure ucl;
+      std::string uout;
+      if (unit) {
+        ucl = exec.create_closure();
+        exec.nrun = 0;
+        bodies.push_back([&] {
+          GraphVertex* vx = nullptr;
+          for (auto& gv : graph->vertexes()) if (gv.option<VOpt>()->vid == 0) vx = &gv;
+          ::absl::InlinedVector<GraphData*, 128> ad;
+          ::absl::InlinedVector<GraphVertex*, 128> rv;
+          vx->activate(ad, rv, ucl.context());
+          while (!rv.empty()) { auto* v = rv.back(); rv.pop_back(); v->invoke(rv); }
+        });
+      } else
       bodies.push_back([&] {
         std::vector<GraphData*> td;
         for (int t : targets) td.push_back(ctx.data[t]);
@@ -293,6 +311,17 @@ int main() {
       verif::Options opt; opt.seed = seed + (unsigned long long)cyc * 7919; opt.strategy = strategy; opt.max_steps = 400000;
       verif::Result r = verif::run(bodies, opt);
       steps += r.steps; pre += r.preemptions;
+      if (unit) {
+        GraphVertex* vx = nullptr;
+        for (auto& gv : graph->vertexes()) if (gv.option<VOpt>()->vid == 0) vx = &gv;
+        GraphDependency& dep = vx->dependencies()[0];
+        char ub[96];
+        snprintf(ub, sizeof ub, "unit=%d/%d/%lld", exec.nrun, dep._ready ? 1 : 0, (long long)dep._waiting_num.load(std::memory_order_relaxed));
+        out += ub;
+        ucl.context()->fire();
+        ucl = Closure();
+        continue;
+      }
       if (!finished_after_get) fin_ok = false;
       char buf[64];
       snprintf(buf, sizeof buf, "%scode=%d vals=", cyc ? "#" : "", code == 0 ? 0 : (code == 12345 ? 12345 : 1));
